@@ -186,8 +186,9 @@ func init() {
 			}
 			return n + 20000
 		},
-		Run:      runC04,
-		Required: []string{"violating_frames_rejected", "legal_frames_accepted", "close_1002_seen"},
+		Run:          runC04,
+		BeatTimeoutS: 60,
+		Required:     []string{"violating_frames_rejected", "legal_frames_accepted", "close_1002_seen"},
 		Assumptions: []string{
 			"exhaustive at the abstraction of the rule (length classes and 6 histories stand for all lengths and all histories)",
 			"UNSPECIFIED cells (RSV1 on continuation/control frames or on first frames whose payload is not a DEFLATE stream when compression is negotiated, non-minimal length encodings, 1-byte close bodies, close codes 1012-1014, 2^63-1 lengths) are executed but no outcome is demanded",
@@ -373,6 +374,9 @@ func c04Case(ctx *core.Ctx, out *core.Out, h int, server, comp bool, f nextFrame
 	var got []delivered
 	var termErr error
 	var openReader io.Reader
+	var reRead bool
+	var reN int
+	var reErr error
 	for i := 0; i < 8; i++ {
 		t, r, err := c.NextReader()
 		if err != nil {
@@ -384,6 +388,10 @@ func c04Case(ctx *core.Ctx, out *core.Out, h int, server, comp bool, f nextFrame
 		if rerr != nil {
 			openReader = r
 			termErr = rerr
+			// the application tries the same reader again at once (before any NextReader)
+			var b [8]byte
+			reN, reErr = r.Read(b[:])
+			reRead = true
 			break
 		}
 	}
@@ -443,6 +451,10 @@ func c04Case(ctx *core.Ctx, out *core.Out, h int, server, comp bool, f nextFrame
 					return
 				}
 			}
+		}
+		if reRead && (reN != 0 || reErr != termErr) {
+			fail("open-reader-after-failure:"+kind, fmt.Sprintf("the next Read on the message reader that had just failed with %v returned (%d,%v); every later read must fail with the same error", termErr, reN, reErr), nil)
+			return
 		}
 		if openReader != nil {
 			var b [8]byte
